@@ -23,6 +23,8 @@ func init() {
 		},
 		Run: runC32,
 		Controls: []Control{
+			{Name: "refactor-entry-cases-reordered", Silent: true, File: "protocols/isis/server/lsdb.go", Old: "\tif e.sameAsInLSPEntry(lspEntry) {\n\t\te.clearSRMFlag(from)\n\t\treturn\n\t}\n\n\tif e.newerInDatabase(lspEntry) {\n\t\te.clearSSNFlag(from)\n\t\te.setSRM(from)\n\t\treturn\n\t}\n", New: "\tif e.newerInDatabase(lspEntry) {\n\t\te.setSRM(from)\n\t\te.clearSSNFlag(from)\n\t\treturn\n\t}\n\n\tif e.sameAsInLSPEntry(lspEntry) {\n\t\te.clearSRMFlag(from)\n\t\treturn\n\t}\n"},
+			{Name: "refactor-aging-with-else", Silent: true, File: "protocols/isis/server/lsdb.go", Old: "\t\tif lspdbEntry.lspdu.RemainingLifetime <= 1 {\n\t\t\tdelete(l.lsps, lspid)\n\t\t\tcontinue\n\t\t}\n\n\t\tlspdbEntry.lspdu.RemainingLifetime--\n", New: "\t\tif lspdbEntry.lspdu.RemainingLifetime <= 1 {\n\t\t\tdelete(l.lsps, lspid)\n\t\t} else {\n\t\t\tlspdbEntry.lspdu.RemainingLifetime--\n\t\t}\n"},
 			{Name: "store-on-equal-sequence", File: "protocols/isis/server/lsdb.go", Old: "\tif !exists || lspdu.SequenceNumber > existingLSDBEntry.lspdu.SequenceNumber {", New: "\tif !exists || lspdu.SequenceNumber >= existingLSDBEntry.lspdu.SequenceNumber {", Expect: "highest-sequence-kept"},
 			{Name: "aging-decrements-first", File: "protocols/isis/server/lsdb.go", Old: "\t\tif lspdbEntry.lspdu.RemainingLifetime <= 1 {\n\t\t\tdelete(l.lsps, lspid)\n\t\t\tcontinue\n\t\t}\n\n\t\tlspdbEntry.lspdu.RemainingLifetime--\n", New: "\t\tlspdbEntry.lspdu.RemainingLifetime--\n\t\tif lspdbEntry.lspdu.RemainingLifetime == 0 {\n\t\t\tdelete(l.lsps, lspid)\n\t\t\tcontinue\n\t\t}\n", Expect: "aging-bounded"},
 			{Name: "csnp-range-ignored", File: "protocols/isis/server/lsdb.go", Old: "\t\tif !csnp.RangeContainsLSPID(lspID) {\n\t\t\tcontinue\n\t\t}\n\n", New: "", Expect: "flag-rules"},
@@ -232,7 +234,7 @@ func runC32(c *core.Ctx) {
 			n++
 			inRange, notListed := false, false
 			for _, ft := range core.FactsAt(csnp, call) {
-				if cl, isC := core.Unparen(ft.Expr).(*ast.CallExpr); isC {
+				if cl := core.CallOf(csnp, ft.Expr); cl != nil {
 					if cal := core.Callee(csnp.Pkg, cl); cal != nil {
 						if cal.Name() == "RangeContainsLSPID" && ft.Truth {
 							inRange = true
